@@ -67,6 +67,12 @@ def gen_configs(ctx):
     out.append({"servers": {"only": {"args": [], "env": None, "timeout": "__absent__", "extra": None}}, "top_extra": None})
     out.append({"servers": {"a": {"args": ARG_POOL[:8], "env": ENV_POOL[3], "timeout": 5, "extra": None},
                             "b": {"args": ARG_POOL[8:], "env": {}, "timeout": "7", "extra": None}}, "top_extra": None})
+    # names that differ only by case / by a normalisation a lookup might apply: each is its own server
+    out.append({"servers": {"reports": {"args": ["lower"], "env": {"WHICH": "lower"}, "timeout": 3, "extra": None},
+                            "Reports": {"args": ["Capital"], "env": {"WHICH": "capital"}, "timeout": 4, "extra": None},
+                            "REPORTS ": {"args": ["upper-space"], "env": None, "timeout": "__absent__", "extra": None},
+                            "re\u0301ports": {"args": ["nfd"], "env": {}, "timeout": 5, "extra": None}},
+                "top_extra": None})
     # the command given as a bare name: it has to be looked up through the PATH of the *configured* environment;
     # a program of the same name sits on the host's own PATH as a decoy
     out.append({"servers": {"pinned": {"args": ["x y"], "env": {"VF_MARK": "1"}, "timeout": 5, "extra": None, "bare": True}},
@@ -446,6 +452,15 @@ def run(ctx):
             jobs.append(({"cfg": cfg, "mode": "loader", "names": ghost}, cfg, "loader", ghost))
             jobs.append(({"cfg": cfg, "mode": "cli", "names": ghost}, cfg, "cli", ghost))
             jobs.append(({"cfg": cfg, "mode": "runner", "names": ghost + one}, cfg, "runner", ghost + one))
+        if i % 3 == 2 or len(names) >= 3:
+            # names that are not configured but re-spell a configured one: unknown all the same
+            respelled = [n for n in {one[0].upper(), one[0].lower(), one[0].swapcase(), one[0] + " ", " " + one[0], one[0].title()}
+                         if n not in names][:3]
+            for g in respelled:
+                jobs.append(({"cfg": cfg, "mode": "loader", "names": [g]}, cfg, "loader", [g]))
+            if respelled:
+                jobs.append(({"cfg": cfg, "mode": "cli", "names": respelled[:1]}, cfg, "cli", respelled[:1]))
+                jobs.append(({"cfg": cfg, "mode": "runner", "names": one + respelled[:1]}, cfg, "runner", one + respelled[:1]))
         if i % 3 == 1:
             # an unknown name after / between / around known ones: every position of the failing entry in the list
             ghost = ["no-such-server"]
